@@ -2969,8 +2969,7 @@ func (ts *TokenStore) handleCreateCommon(ctx context.Context, req *logical.Reque
 	case "", "service":
 	case "batch":
 		var badReason string
-		switch {
-		case explicitMaxTTL != "":
+		if explicitMaxTTL != "" {
 			dur, err := parseutil.ParseDurationSecond(explicitMaxTTL)
 			if err != nil {
 				return logical.ErrorResponse("'explicit_max_ttl' value could not be parsed"), nil
@@ -2978,9 +2977,11 @@ func (ts *TokenStore) handleCreateCommon(ctx context.Context, req *logical.Reque
 			if dur != 0 {
 				badReason = "explicit_max_ttl"
 			}
-		case numUses != 0:
+		}
+		if badReason == "" && numUses != 0 {
 			badReason = "num_uses"
-		case period != "":
+		}
+		if badReason == "" && period != "" {
 			dur, err := parseutil.ParseDurationSecond(period)
 			if err != nil {
 				return logical.ErrorResponse("'period' value could not be parsed"), nil
@@ -3060,6 +3061,11 @@ func (ts *TokenStore) handleCreateCommon(ctx context.Context, req *logical.Reque
 			te.NumUses = role.TokenNumUses
 		case role.TokenNumUses < te.NumUses:
 			te.NumUses = role.TokenNumUses
+		}
+
+		// Batch tokens are not persisted, a use count cannot be enforced
+		if te.Type == logical.TokenTypeBatch && te.NumUses != 0 {
+			return logical.ErrorResponse("batch tokens cannot have %q set", "num_uses"), nil
 		}
 
 		if role.PathSuffix != "" {
@@ -3905,6 +3911,9 @@ func (ts *TokenStore) tokenStoreRoleCreateUpdate(ctx context.Context, req *logic
 		}
 		if entry.ExplicitMaxTTL != 0 || entry.TokenExplicitMaxTTL != 0 {
 			return logical.ErrorResponse("'token_type' cannot be 'batch' when role is set to generate tokens with an explicit max TTL"), nil
+		}
+		if entry.TokenNumUses != 0 {
+			return logical.ErrorResponse("'token_type' cannot be 'batch' when role is set to generate tokens with limited use count"), nil
 		}
 	}
 
